@@ -1,6 +1,6 @@
 (** SbmlDocProofs -- reactions (numeric / fractional / computed coefficients of either sign),
     initial assignments, reference ids, id escaping. *)
-From Coq Require Import ZArith QArith Qabs List Bool String Ascii Lia.
+From Coq Require Import ZArith NArith Nnat QArith Qabs List Bool String Ascii Lia.
 Import ListNotations.
 From SbmlExp Require Import SbmlMath SbmlId SbmlDoc SbmlMathProofs.
 
@@ -125,15 +125,21 @@ End Import.
 
 (* ------------------------------------------------------------------------------------- *)
 (** * reference ids of computed coefficients *)
-Lemma rule_for_in_keys : forall A x (l : list (N * A)) w, rule_for x l = Some w -> In x (map fst l).
+Lemma key_eqb_eq : forall a b : key, key_eqb a b = true <-> a = b.
+Proof.
+  intros [a1 a2] [b1 b2]. unfold key_eqb. cbn [fst snd]. rewrite andb_true_iff, !N.eqb_eq.
+  split; [intros [H1 H2]; now subst|intros H; inversion H; auto].
+Qed.
+
+Lemma rule_for_in_keys : forall A x (l : list (key * A)) w, rule_for x l = Some w -> In x (map fst l).
 Proof.
   induction l as [|[k v] r IH]; cbn; intros w H; [discriminate|].
   destruct (rule_for x r) as [w'|] eqn:E.
   - right. eapply IH. reflexivity.
-  - destruct (N.eqb k x) eqn:Ek; [|discriminate]. apply N.eqb_eq in Ek. now left.
+  - destruct (key_eqb k x) eqn:Ek; [|discriminate]. apply key_eqb_eq in Ek. now left.
 Qed.
 
-Theorem rule_for_nodup : forall A x (m : A) (l : list (N * A)),
+Theorem rule_for_nodup : forall A x (m : A) (l : list (key * A)),
   NoDup (map fst l) -> In (x, m) l -> rule_for x l = Some m.
 Proof.
   induction l as [|[k v] r IH]; cbn; intros Hnd Hin; [contradiction|].
@@ -142,9 +148,95 @@ Proof.
   - inversion Heq. subst k v.
     destruct (rule_for x r) as [w|] eqn:E.
     + exfalso. apply Hnotin. eapply rule_for_in_keys. exact E.
-    + now rewrite N.eqb_refl.
+    + now rewrite (proj2 (key_eqb_eq x x) eq_refl).
   - now rewrite (IH Hnd' Hin).
 Qed.
+
+(** the counter of the repaired exporter never hands out an id twice *)
+Definition keys_bounded (used : list key) : Prop := forall x i, In (x, i) used -> (i <= count_refs x used)%N.
+
+Lemma count_refs_cons : forall x y i used,
+  count_refs x ((y, i) :: used) = if N.eqb y x then N.succ (count_refs x used) else count_refs x used.
+Proof.
+  intros x y i used. unfold count_refs. cbn [filter fst]. destruct (N.eqb y x); [|reflexivity].
+  cbn [List.length]. now rewrite Nat2N.inj_succ.
+Qed.
+
+Lemma count_refs_mono : forall x k used, (count_refs x used <= count_refs x (k :: used))%N.
+Proof. intros x [y i] used. rewrite count_refs_cons. destruct (N.eqb y x); lia. Qed.
+
+Lemma assign_keys_counted : forall F, f_ref_id F = RefCounted ->
+  forall l used, keys_bounded used ->
+    NoDup (map fst (assign_keys F l used)) /\ (forall k, In k (map fst (assign_keys F l used)) -> ~ In k used).
+Proof.
+  intros F HF. induction l as [|[x fa] r IH]; intros used Hb; cbn [assign_keys map].
+  - split; [constructor|intros k []].
+  - unfold ref_key at 1 3. rewrite HF. cbn [fst].
+    set (k := (x, N.succ (count_refs x used))).
+    assert (Hk : ~ In k used).
+    { intros Hin. apply Hb in Hin. lia. }
+    assert (Hb' : keys_bounded (k :: used)).
+    { intros y i [Heq|Hin].
+      - inversion Heq. subst y i. unfold k. rewrite count_refs_cons, N.eqb_refl. lia.
+      - apply Hb in Hin. eapply N.le_trans; [exact Hin|apply count_refs_mono]. }
+    replace (ref_key F used x) with k by (unfold ref_key; now rewrite HF).
+    destruct (IH (k :: used) Hb') as [Hnd Hnot]. split.
+    + constructor; [|exact Hnd]. intros Hin. apply (Hnot _ Hin). now left.
+    + intros k' [Heq|Hin]; [now subst k'|]. intros Hu. apply (Hnot _ Hin). now right.
+Qed.
+
+Lemma doc_rules_keys : forall F rs, map fst (doc_rules F rs) = map fst (doc_keyed F rs).
+Proof. intros F rs. unfold doc_rules. rewrite map_map. reflexivity. Qed.
+
+Theorem doc_keys_nodup_counted : forall F rs, f_ref_id F = RefCounted -> NoDup (map fst (doc_keyed F rs)).
+Proof.
+  intros F rs HF. unfold doc_keyed. apply (assign_keys_counted F HF). intros x i [].
+Qed.
+
+Theorem reference_rule_counted : forall F, f_ref_id F = RefCounted ->
+  forall rs x m, In (x, m) (doc_rules F rs) -> rule_for x (doc_rules F rs) = Some m.
+Proof.
+  intros F HF rs x m Hin. apply rule_for_nodup; [|exact Hin].
+  rewrite doc_rules_keys. now apply doc_keys_nodup_counted.
+Qed.
+
+Section DocCoef.
+  Variable ufn : rfun -> list Q -> option Q.
+  Variable rho : N -> option Q.
+
+  (** every computed coefficient of the document is reproduced by the rule bound to ITS reference id *)
+  Theorem document_computed_coefficients_nodup : forall F, doc_facts_good F = true ->
+    forall rs k f a e m q,
+      NoDup (map fst (doc_keyed F rs)) ->
+      In (k, (f, a)) (doc_keyed F rs) ->
+      single_return f e ->
+      tree_to_sbml F f a = Ok m ->
+      eval_fn ufn rho f a = Some q ->
+      imported_dyn_coef ufn rho F rs k = Some q.
+  Proof.
+    intros F HF rs k f a e m q Hnd Hin Hs Hm Hq. destruct (doc_good_parts F HF) as [Hg [Hrole _]].
+    unfold imported_dyn_coef.
+    assert (Hr : rule_for k (doc_rules F rs) = Some (tree_to_sbml F f a)).
+    { apply rule_for_nodup; [now rewrite doc_rules_keys|].
+      unfold doc_rules. apply in_map_iff. exists (k, (f, a)). split; [reflexivity|exact Hin]. }
+    rewrite Hr, Hm, Hrole. unfold sref_coef. cbn [sr_stoich sr_rule sr_role].
+    now rewrite (tree_to_sbml_sound F Hg ufn rho f a e m q Hs Hm Hq).
+  Qed.
+
+  Theorem document_computed_coefficients : forall F, doc_facts_good F = true -> f_ref_id F = RefCounted ->
+    forall rs k f a e m q,
+      In (k, (f, a)) (doc_keyed F rs) ->
+      single_return f e ->
+      tree_to_sbml F f a = Ok m ->
+      eval_fn ufn rho f a = Some q ->
+      imported_dyn_coef ufn rho F rs k = Some q.
+  Proof.
+    intros F HF HR rs k f a e m q. apply document_computed_coefficients_nodup; auto using doc_keys_nodup_counted.
+  Qed.
+End DocCoef.
+
+Lemma doc_facts_good_ref_id : forall m F, doc_facts_good (set_ref_id m F) = doc_facts_good F.
+Proof. reflexivity. Qed.
 
 (* ------------------------------------------------------------------------------------- *)
 (** * id escaping *)
@@ -171,12 +263,38 @@ Proof.
   - remember (dec (nat_of_ascii c) ++ "__" ++ escape r)%string as rest. cbn. destruct (is_alpha "_"); eauto.
 Qed.
 
+(** identifiers: what is referred to is what was declared *)
+Theorem math_ids_declared : forall prefix s,
+  math_ref MathIds prefix s = convert_id prefix s
+  /\ ia_symbol MathIds prefix s = convert_id prefix s
+  /\ sref_id MathIds s = rule_variable s.
+Proof. intros prefix s. repeat split. Qed.
+
+Theorem math_names_safe : forall mn, mn <> MathNamesUnknown ->
+  forall prefix s, safe_name s = true ->
+    math_ref mn prefix s = convert_id prefix s
+    /\ ia_symbol mn prefix s = convert_id prefix s
+    /\ sref_id mn s = rule_variable s.
+Proof.
+  intros mn Hmn prefix s Hs. destruct mn; [|apply math_ids_declared|congruence].
+  unfold math_ref, ia_symbol, sref_id, rule_variable. rewrite !(id_safe_identity _ s Hs). repeat split.
+Qed.
+
+Lemma raw_names_refuted :
+  exists s : string, s <> EmptyString
+    /\ math_ref MathRawNames "PAR" s <> convert_id "PAR" s
+    /\ ia_symbol MathRawNames "CPD" s <> convert_id "CPD" s
+    /\ sref_id MathRawNames s <> rule_variable s.
+Proof. exists "1k"%string. repeat split; vm_compute; discriminate. Qed.
+
 Lemma doc_good_math : forall F, doc_facts_good F = true -> facts_good F = true.
 Proof. intros F H. exact (proj1 (doc_good_parts F H)). Qed.
 
 (* ------------------------------------------------------------------------------------- *)
 (** * regression witnesses: the earlier value of each repaired fact breaks the property *)
 From SbmlExp Require Import GenSbmlFacts.
+Lemma gen_math_names_known : f_math_names gen_facts <> MathNamesUnknown.
+Proof. vm_compute. discriminate. Qed.
 Definition no_fn : rfun -> list Q -> option Q := fun _ _ => None.
 Definition one_fn : rfun -> list Q -> option Q := fun _ _ => Some 1.
 Definition at_ (q : Q) : N -> option Q := fun _ => Some q.
@@ -236,13 +354,43 @@ Proof.
   exists "x-y"%string, "x__45__y"%string. split; [discriminate|vm_compute; reflexivity].
 Qed.
 
+Definition shared_ref_doc : list reaction :=
+  [mkRxn (mkFun [] [SReturn (EInt 1)]) [] [(1%N, CDyn (mkFun [] [SReturn (EReal (1 # 2))]) [])];
+   mkRxn (mkFun [] [SReturn (EInt 1)]) [] [(1%N, CDyn (mkFun [] [SReturn (EUn UNeg (EReal (3 # 2)))]) [])]].
+
 Lemma shared_ref_refuted :
   exists rs x m m',
-    In (x, m) (doc_rules gen_facts rs) /\ rule_for x (doc_rules gen_facts rs) = Some m' /\ m <> m'.
+    In (x, m) (doc_rules (set_ref_id RefPerSpecies gen_facts) rs)
+    /\ rule_for x (doc_rules (set_ref_id RefPerSpecies gen_facts) rs) = Some m' /\ m <> m'.
 Proof.
-  exists [mkRxn (mkFun [] [SReturn (EInt 1)]) [] [(1%N, CDyn (mkFun [] [SReturn (EReal (1 # 2))]) [])];
-          mkRxn (mkFun [] [SReturn (EInt 1)]) [] [(1%N, CDyn (mkFun [] [SReturn (EUn UNeg (EReal (3 # 2)))]) [])]].
-  exists 1%N. eexists. eexists. split; [vm_compute; left; reflexivity|]. split; [vm_compute; reflexivity|discriminate].
+  exists shared_ref_doc.
+  exists (1%N, 1%N). eexists. eexists. split; [vm_compute; left; reflexivity|]. split; [vm_compute; reflexivity|discriminate].
+Qed.
+
+Lemma shared_reference_coefficient_refuted :
+  exists rs k f a,
+    In (k, (f, a)) (doc_keyed (set_ref_id RefPerSpecies gen_facts) rs)
+    /\ eval_fn no_fn (at_ 0) f a = Some (1 # 2)
+    /\ imported_dyn_coef no_fn (at_ 0) (set_ref_id RefPerSpecies gen_facts) rs k = Some (- (3 # 2)).
+Proof.
+  exists shared_ref_doc. exists (1%N, 1%N). eexists. eexists.
+  split; [vm_compute; left; reflexivity|]. split; vm_compute; reflexivity.
+Qed.
+
+Lemma counted_reference_example :
+  map fst (doc_keyed (set_ref_id RefCounted gen_facts) shared_ref_doc) = [(1%N, 1%N); (1%N, 2%N)]
+  /\ map (imported_dyn_coef no_fn (at_ 0) (set_ref_id RefCounted gen_facts) shared_ref_doc) [(1%N, 1%N); (1%N, 2%N)]
+     = [Some (1 # 2); Some (- (3 # 2))].
+Proof. split; vm_compute; reflexivity. Qed.
+
+Lemma sequential_rename_refuted :
+  exists fd args m,
+    tree_to_sbml (set_rename RenSequential gen_facts) fd args = Ok m
+    /\ eval_fn no_fn (fun x : N => if N.eqb x 100 then Some 2 else Some 5) fd args = Some 3
+    /\ eval_ml no_fn (fun x : N => if N.eqb x 100 then Some 2 else Some 5) m = Some 0.
+Proof.
+  exists (mkFun [100; 101]%N [SReturn (EBin BSub (EName 100) (EName 101))]), [101; 100]%N.
+  eexists. split; [vm_compute; reflexivity|]. split; vm_compute; reflexivity.
 Qed.
 
 Lemma last_statement_refuted :
